@@ -67,6 +67,8 @@ def sig_c20(f):
 PROPS = {
     "C20": dict(
         src="Properties/C20.v", target="Properties/C20.vo",
+        # statements about the tree as it is: the "flag is repaired" premises discharged against Extracted.Facts
+        more_src=["Properties/C20Current.v"],
         # support must NOT contain anything that depends on the extracted facts being what the proofs expect
         # (Remote/ProofsTie.vo): vcheck runs the harness only when support builds, and a broken tie is exactly
         # the situation in which a concrete failing history has to be searched for.
